@@ -63,11 +63,20 @@ def cmp_frames(ctx, what, A, B, shift=0, skip_fields=()):
     return shared, bad
 
 
+def c11_ramp(x, y, z, *, t, B=0.8, rate=4.0):
+    s_ = min(1.0, 0.05 + rate * t)
+    return np.stack([-s_ * B * y / 2, s_ * B * x / 2, np.zeros_like(x)], axis=1)
+
+
 def physics(quick):
     c = [
         dict(name="fixed", dev="bar", opts=dict(dt_init=1e-2, adaptive=False), kw=dict(applied_vector_potential=0.4, terminal_currents={"source": 3.0, "drain": -3.0})),
         dict(name="adaptive", dev="bar_hole", opts=dict(dt_init=1e-3, dt_max=4e-2, adaptive=True, adaptive_window=2), kw=dict(applied_vector_potential=0.7, terminal_currents={"source": 5.0, "drain": -5.0})),
     ]
+    # a time-dependent field with an adaptive (varying) step: the previous step's dt enters dA/dt, so nothing
+    # that reports progress may touch it
+    c.append(dict(name="adaptive_ramped_field", dev="bar", N=9, opts=dict(dt_init=1e-4, dt_max=1.0, adaptive=True, adaptive_window=2),
+                  kw=dict(applied_vector_potential=tdgl.Parameter(c11_ramp, time_dependent=True), terminal_currents={"source": 3.0, "drain": -3.0})))
     # an averaging window longer than some of the save intervals (and than the per-step record buffer they imply)
     c.append(dict(name="adaptive_window4", dev="bar", N=11, opts=dict(dt_init=1e-4, dt_max=1.0, adaptive=True, adaptive_window=4), kw=dict(applied_vector_potential=0.7, terminal_currents={"source": 4.0, "drain": -4.0})))
     if not quick:
@@ -93,7 +102,7 @@ def eval_physics(ctx, cfg, N):
     if sorted(base) != list(range(N + 1)):
         fail("base-labels", f"base run (k=1) has labels {sorted(base)} for N={N}")
     variants = [(f"k={k}", dict(save_every=k)) for k in range(2, N + 2)]
-    variants += [("tempdir", dict(save_every=2, output=False)), ("progress", dict(save_every=2, progress_interval=1))]
+    variants += [("tempdir", dict(save_every=2, output=False)), ("progress", dict(save_every=2, progress_interval=1)), ("progress3", dict(save_every=1, progress_interval=3))]
     for tag, o in variants:
         _, fr = run_once(ctx, dev, kw, tag, solve_time=T, **cfg["opts"], **o)
         shared, bad = cmp_frames(ctx, tag, base, fr)
